@@ -37,9 +37,24 @@ class Run:
     # -- execution
     def execute(self):
         lines = [l for _, l, _ in self.cases]
-        cmp_lines = [l for _, l, m in self.cases if m["cmp"]]
-        self.model = core.run_model(cmp_lines)
         self.impl_raw = core.run_impl(lines)
+        # two-stage cases (`fsdump=1`): the implementation dumps the object a FAILED raw decode left behind
+        # (`fst:<hex>` tokens); the model gets those dumps (`fst=` field), reads them back, checks the safety
+        # invariant on them and continues from them.  For the comparison the dump is replaced by its length
+        # and CRC-32, which the model prints for the state it re-serialises.
+        handed = {}
+        for cid, line, meta in self.cases:
+            if meta.get("twostage"):
+                raw = self.impl_raw.get(cid, "missing")
+                dumps = [t[4:] for t in raw.split(" ") if t.startswith("fst:")]
+                handed[cid] = ",".join(dumps)
+                import zlib
+                self.impl_raw[cid] = " ".join(
+                    ("fst:%d:%08x" % (len(t[4:]) // 2, zlib.crc32(bytes.fromhex(t[4:])) & 0xFFFFFFFF)) if t.startswith("fst:") else t
+                    for t in raw.split(" "))
+                self.count("twostage:states-handed-over", len(dumps))
+        cmp_lines = [(l + (" fst=" + handed[c] if handed.get(c) else "")) for c, l, m in self.cases if m["cmp"]]
+        self.model = core.run_model(cmp_lines)
         rel = [l for _, l, m in self.cases if m["release"]]
         self.impl_rel = core.run_impl(rel, release=True) if rel else {}
         self.impl = {}
